@@ -6,6 +6,7 @@ import (
 	"fmt"
 	"go/token"
 	"go/types"
+	"sort"
 	"strings"
 
 	"golang.org/x/tools/go/ssa"
@@ -152,7 +153,27 @@ func checkC02(c *Ctx, r *Result, tier string) {
 
 	// ---- R02a (2) AddEvent: Activate before AddTask ------------------------------------------
 	n = 0
+	// AddEvent and the same-package helpers it hands the scheduling to
+	var schedFns []*ssa.Function
+	seenSched := map[*ssa.Function]bool{}
+	var addSched func(fn *ssa.Function, d int)
+	addSched = func(fn *ssa.Function, d int) {
+		if seenSched[fn] || d > 2 {
+			return
+		}
+		seenSched[fn] = true
+		schedFns = append(schedFns, fn)
+		for h := range staticCalleesIn(c, fn) {
+			if c.PkgOf(h) == "engine" && h.Name() != "AddEvent" {
+				addSched(h, d+1)
+			}
+		}
+	}
 	for _, fn := range c.Implementations(procIface, "AddEvent") {
+		addSched(fn, 0)
+	}
+	sort.Slice(schedFns, func(i, j int) bool { return c.FuncKey(schedFns[i]) < c.FuncKey(schedFns[j]) })
+	for _, fn := range schedFns {
 		key := c.FuncKey(fn)
 		adds := callSites(fn, func(name string, ci ssa.CallInstruction) bool {
 			return strings.HasSuffix(name, "engine/pool.ThreadPool.AddTask")
